@@ -137,6 +137,7 @@ type Event struct {
 	Looked []string // maps with a successful lookup on every path reaching this event
 	Func string
 	NAtoms int // number of path atoms in force when the event happened (Paths mode)
+	St     *State // fnreturn events: the state at the return
 }
 
 // State is one abstract machine state.
@@ -618,4 +619,17 @@ func (s *State) SymRange(a lin.Atom) Interval {
 		return iv
 	}
 	return Interval{negInf, posInf}
+}
+
+// SingleSym returns the symbol of a value that is exactly one symbol (coefficient 1, no constant).
+func (v Val) SingleSym() (lin.Atom, bool) {
+	if v.K != VInt || !v.HasL || v.L.K != 0 || len(v.L.T) != 1 {
+		return 0, false
+	}
+	for a, c := range v.L.T {
+		if c == 1 {
+			return a, true
+		}
+	}
+	return 0, false
 }
